@@ -52,6 +52,8 @@ func genI64(r *Rng) int64 {
 	}
 }
 
+var boundaryLens = []int{7, 8, 9, 14, 15, 16, 17, 31, 32, 33, 62, 63, 64, 65, 66, 126, 127, 128, 129, 255, 256, 257, 511, 512, 513, 1023, 1024}
+
 func genBytesStr(r *Rng, max int) string {
 	n := 0
 	switch r.Intn(8) {
@@ -59,6 +61,20 @@ func genBytesStr(r *Rng, max int) string {
 		n = 0
 	case 1:
 		n = r.Range(max/2, max)
+	case 2:
+		// lengths at and around the sizes where encoders switch representation or use fixed scratch buffers
+		// (varint length 1->2 at 128, 64-byte scratch buffers, nibble-packed sizes at 15, ...)
+		var cand []int
+		for _, b := range boundaryLens {
+			if b <= max {
+				cand = append(cand, b)
+			}
+		}
+		if len(cand) > 0 {
+			n = cand[r.Intn(len(cand))]
+		} else {
+			n = r.Range(1, 12)
+		}
 	default:
 		n = r.Range(1, 12)
 	}
